@@ -9,7 +9,7 @@ from tools import pull, vlib
 class C11(vlib.Spec):
     model_vo = ["theories/Pull/Corr.vo", "theories/Pull/CorrX.vo", "theories/Pull/CorrP.vo"]
     props_vo = "theories/Props/C11.vo"
-    theorems = ['C11_map', 'C11_inspect', 'C11_filter', 'C11_filter_map', 'C11_flat_map', 'C11_flatten', 'C11_take_while', 'C11_skip_while', 'C11_take', 'C11_skip', 'C11_enumerate', 'C11_fuse', 'C11_chain', 'C11_zip', 'C11_zip_longest', 'C11_cross_singleton', 'C11_run_deterministic', 'C11_run_fuel_iff', 'C11_source_truthful', 'C11_compose', 'C11_beh_replays', 'C11_compose_fused', 'C11_checker_sound', 'C11_checker_complete', 'C11_compose_hints', 'C11_relay', 'C11_flat_map_stream', 'C11_filter_map_async', 'C11_stream_ready', 'C11_consume', 'C11_collect', 'C11_send', 'C11_send_protocol', 'C11_pipeline_model', 'C11_pipeline_model_any_depth', 'C11_gen_ok_sound', 'C11_adaptors_checker_complete']
+    theorems = ['C11_map', 'C11_inspect', 'C11_filter', 'C11_filter_map', 'C11_flat_map', 'C11_flatten', 'C11_take_while', 'C11_skip_while', 'C11_take', 'C11_skip', 'C11_enumerate', 'C11_fuse', 'C11_chain', 'C11_zip', 'C11_zip_longest', 'C11_cross_singleton', 'C11_run_deterministic', 'C11_run_fuel_iff', 'C11_source_truthful', 'C11_compose', 'C11_beh_replays', 'C11_compose_fused', 'C11_checker_sound', 'C11_checker_complete', 'C11_compose_hints', 'C11_relay', 'C11_flat_map_stream', 'C11_filter_map_async', 'C11_stream_ready', 'C11_consume', 'C11_collect', 'C11_send', 'C11_send_protocol', 'C11_pipeline_model', 'C11_pipeline_model_any_depth', 'C11_gen_ok_sound', 'C11_adaptors_checker_complete', 'C11_binary_pipeline_model', 'C11_next']
     crate, group, binary = "h_pull", "light", "h_pull"
     imports = "From HV Require Import Pull.Corr Pull.CorrX Pull.CorrP."
     trusted_base = ["coqc 8.16.1 kernel (vm_compute used for case evaluation only)",
